@@ -147,21 +147,57 @@ pub fn canon_reply(name: &[u8], v: V) -> V {
         _ => crate::c15::canon_streams(name, v),
     }
 }
+/// canonical order of pushed frames (= Model/RunSrv.v canon_pushes): each maximal run of consecutive
+/// pmessage frames with the same channel and payload is sorted by pattern (HashMap order of the
+/// pattern map is unobservable)
+pub fn canon_pushes(mut l: Vec<V>) -> Vec<V> {
+    fn key(v: &V) -> Option<(Vec<u8>, Vec<u8>, Vec<u8>)> {
+        if let V::Array(a) = v { if a.len() == 4 { if let (V::Bulk(k), V::Bulk(p), V::Bulk(ch), V::Bulk(m)) = (&a[0], &a[1], &a[2], &a[3]) {
+            if k == b"pmessage" { return Some((p.clone(), ch.clone(), m.clone())); } } } }
+        None
+    }
+    let mut i = 0;
+    while i < l.len() {
+        if let Some((_, ch, m)) = key(&l[i]) {
+            let mut j = i + 1;
+            while j < l.len() { match key(&l[j]) { Some((_, ch2, m2)) if ch2 == ch && m2 == m => j += 1, _ => break } }
+            l[i..j].sort_by(|a, b| key(a).unwrap().0.cmp(&key(b).unwrap().0));
+            i = j;
+        } else { i += 1; }
+    }
+    l
+}
+/// (P)UNSUBSCRIBE without arguments confirms the connection's names in HashSet order: sort the names
+/// of the consecutive confirmation frames of that kind, the counts stay by position
+fn canon_unsub_all(kind: &[u8], l: &mut Vec<V>) {
+    let is = |v: &V| matches!(v, V::Array(a) if a.len() == 3 && matches!(&a[0], V::Bulk(k) if k == kind) && matches!(&a[1], V::Bulk(_)));
+    let mut i = 0;
+    while i < l.len() {
+        if is(&l[i]) {
+            let mut j = i; while j < l.len() && is(&l[j]) { j += 1; }
+            let mut names: Vec<Vec<u8>> = l[i..j].iter().map(|v| if let V::Array(a) = v { if let V::Bulk(n) = &a[1] { n.clone() } else { vec![] } } else { vec![] }).collect();
+            names.sort();
+            for (k, n) in names.into_iter().enumerate() { if let V::Array(a) = &mut l[i + k] { a[1] = V::Bulk(n); } }
+            i = j;
+        } else { i += 1; }
+    }
+}
 pub fn req_name(req: &V) -> Vec<u8> {
     match req { V::Array(l) => match l.first() { Some(V::Bulk(b)) => b.to_ascii_uppercase(), _ => vec![] }, _ => vec![] }
 }
-const RANDOM_CMDS: &[&[u8]] = &[b"RANDOMKEY", b"SPOP", b"SRANDMEMBER", b"XADD"];
+const RANDOM_CMDS: &[&[u8]] = &[b"RANDOMKEY", b"SPOP", b"SRANDMEMBER", b"XADD", b"SCRIPT"];
 
-pub struct Runner { pub srv: Srv, pub conns: HashMap<i128, Client>, pub t0: Instant, pub logical: i128, pub drift_bad: bool, pub queues: HashMap<i128, Vec<Vec<u8>>>, pub password: Option<String>, pub ctl_authed: bool }
+pub struct Runner { pub srv: Srv, pub conns: HashMap<i128, Client>, pub t0: Instant, pub logical: i128, pub drift_bad: bool, pub queues: HashMap<i128, Vec<Vec<u8>>>, pub password: Option<String>, pub ctl_authed: bool, pub quit_sent: std::collections::HashSet<i128> }
 
 impl Runner {
-    pub fn new(o: &SrvOpts) -> Runner { Runner { srv: Srv::start(o), conns: HashMap::new(), t0: Instant::now(), logical: 0, drift_bad: false, queues: HashMap::new(), password: o.password.clone(), ctl_authed: false } }
+    pub fn new(o: &SrvOpts) -> Runner { Runner { srv: Srv::start(o), conns: HashMap::new(), t0: Instant::now(), logical: 0, drift_bad: false, queues: HashMap::new(), password: o.password.clone(), ctl_authed: false, quit_sent: Default::default() } }
     /// one op; returns (possibly augmented op, output)
     pub fn op(&mut self, op: &[Tok]) -> (Vec<Tok>, Vec<Tok>) {
         let name = tok_bytes(&op[0]).to_vec();
         match &name[..] {
             b"CONN" => { let c = tok_int(&op[1]); match Client::connect(self.srv.port) { Some(cl) => { self.conns.insert(c, cl); (op.to_vec(), vec![i(1)]) } None => (op.to_vec(), vec![i(0)]) } }
             b"CLOSE" => { let c = tok_int(&op[1]); self.conns.remove(&c); std::thread::sleep(Duration::from_millis(15)); (op.to_vec(), vec![]) }
+            b"NOTE" => (op.to_vec(), vec![]),      // annotation for the judge (C12 twin pairs); no effect
             b"SLEEP" => {
                 self.logical += tok_int(&op[1]);
                 let target = Duration::from_millis(self.logical as u64);
@@ -182,7 +218,7 @@ impl Runner {
                 if !cl.send(&wire) { return (op[..pos].to_vec(), vec![b("CLOSED")]); }
                 let mut newop = op[..pos].to_vec();
                 newop[2] = Tok::I(self.logical);
-                match cl.read(3000) {
+                match cl.read(8000) {
                     Rd::Val(v) => {
                         if RANDOM_CMDS.contains(&&nm[..]) || nm == b"ZSCAN" { v.enc(&mut newop); }
                         // replies inside an EXEC array are canonicalised by the queued command's name
@@ -191,7 +227,7 @@ impl Runner {
                             match v { V::Array(l) if l.len() == q.len() => V::Array(l.into_iter().zip(q.iter()).map(|(x, n)| canon_reply(n, x)).collect()), x => x }
                         } else {
                             if matches!(&v, V::Simple(s) if s == b"QUEUED") { self.queues.entry(c).or_default().push(nm.clone()); }
-                            if nm == b"MULTI" || nm == b"DISCARD" { self.queues.remove(&c); }
+                            if (nm == b"MULTI" || nm == b"DISCARD") && !matches!(&v, V::Error(_)) { self.queues.remove(&c); }   // a refused nested MULTI keeps the queue
                             v
                         };
                         let mut out = vec![]; canon_reply(&nm, v).enc(&mut out); (newop, out)
@@ -216,7 +252,7 @@ impl Runner {
                 let passes0 = ask(cl, &[b"VERIF", b"SWEEP", b"PASSES"]);
                 let wait = |cl: &mut Client, ask: &mut dyn FnMut(&mut Client, &[&[u8]]) -> i64, what: &[u8], target: i64| -> bool {
                     let t0 = Instant::now();
-                    while t0.elapsed() < Duration::from_millis(2500) {
+                    while t0.elapsed() < Duration::from_millis(8000) {
                         if ask(cl, &[b"VERIF", b"SWEEP", what]) >= target { return true; }
                         std::thread::sleep(Duration::from_millis(5));
                     }
@@ -246,35 +282,142 @@ impl Runner {
                 if el - self.logical > 80 { self.drift_bad = true; }
                 (newop, if ok { vec![] } else { vec![b("SWEEPTIMEOUT")] })
             }
+            b"SUBCMD" | b"DRAIN" | b"SUBRAW" => {
+                // [SUBCMD c t request]: send the request and an ECHO marker in ONE write (so the server sees one
+                // batch) and collect every frame that arrives on c before the marker's reply: pushed messages
+                // not read yet, frames pushed by this very request, its confirmations / reply.
+                // [DRAIN c t]: the marker alone.  Output: [closed; frames...].
+                // (The connection must not be inside MULTI: the marker would be queued.)
+                static MARK: std::sync::atomic::AtomicU64 = std::sync::atomic::AtomicU64::new(0);
+                let c = tok_int(&op[1]);
+                let mut newop = op.to_vec(); newop[2] = Tok::I(self.logical);
+                let mut nm = vec![]; let mut nargs = 0;
+                let mut wire = vec![];
+                if &name[..] == b"SUBRAW" {
+                    // [SUBRAW c t bytes]: a pipelined chunk of raw bytes instead of one request (same output as RAW,
+                    // but delimited by the marker instead of a quiet period)
+                    wire.extend_from_slice(tok_bytes(&op[3]));
+                } else if &name[..] == b"SUBCMD" {
+                    let mut pos = 3;
+                    let req = match V::dec(op, &mut pos) { Some(r) => r, None => return (op.to_vec(), vec![b("BADFRAME")]) };
+                    nm = req_name(&req); if let V::Array(l) = &req { nargs = l.len(); }
+                    req.wire(&mut wire);
+                }
+                let marker = format!("__verif_marker_{}", MARK.fetch_add(1, std::sync::atomic::Ordering::SeqCst)).into_bytes();
+                V::cmd(&[b"ECHO", &marker]).wire(&mut wire);
+                if nm == b"QUIT" { self.quit_sent.insert(c); }
+                let may_close = self.quit_sent.contains(&c);
+                let cl = match self.conns.get_mut(&c) { Some(x) => x, None => return (newop, vec![i(1)]) };
+                if !cl.send(&wire) { return (newop, vec![i(1)]); }
+                let mut frames = vec![]; let mut closed = 0; let mut odd: Option<&str> = None;
+                loop {
+                    match cl.read(3000) {
+                        Rd::Val(V::Bulk(x)) if x == marker => break,
+                        Rd::Val(v) => frames.push(v),
+                        Rd::Timeout => { odd = Some("TIMEOUT"); break; }
+                        Rd::Closed => { closed = 1; break; }
+                        Rd::Bad => { odd = Some("GARBAGE"); break; }
+                    }
+                }
+                // a connection that has sent QUIT is closed by the server at the end of the loop iteration in
+                // which it has no subscription left: a second marker is then never answered (EOF instead);
+                // if the connection lingers (closing-leak) it is
+                if may_close && closed == 0 && odd.is_none() {
+                    let m2 = format!("__verif_marker_{}", MARK.fetch_add(1, std::sync::atomic::Ordering::SeqCst)).into_bytes();
+                    let mut w2 = vec![]; V::cmd(&[b"ECHO", &m2]).wire(&mut w2);
+                    if !cl.send(&w2) { closed = 1; } else {
+                        loop { match cl.read(3000) { Rd::Val(V::Bulk(x)) if x == m2 => break, Rd::Val(v) => frames.push(v), Rd::Timeout => { odd = Some("TIMEOUT"); break; } Rd::Closed => { closed = 1; break; } Rd::Bad => { odd = Some("GARBAGE"); break; } } }
+                    }
+                }
+                if (nm == b"UNSUBSCRIBE" || nm == b"PUNSUBSCRIBE") && nargs == 1 { canon_unsub_all(&nm.to_ascii_lowercase(), &mut frames); }
+                let mut out = vec![i(closed)];
+                for f in canon_pushes(frames) { canon(f).enc(&mut out); }
+                if let Some(w) = odd { out.push(b(w)); }
+                (newop, out)
+            }
             b"RAW" => {
                 // [RAW c t chunk...]: write the chunks 25 ms apart, then collect everything the server
                 // sends until it has been quiet for 150 ms; output = [closed?; reply frames...]
                 let c = tok_int(&op[1]);
                 let mut newop = op.to_vec(); newop[2] = Tok::I(self.logical);
-                let cl = match self.conns.get_mut(&c) { Some(x) => x, None => return (newop, vec![b("CLOSED")]) };
+                let mut cl = match self.conns.remove(&c) { Some(x) => x, None => return (newop, vec![b("CLOSED")]) };
                 for ch in &op[3..] { let _ = cl.send(tok_bytes(ch)); std::thread::sleep(Duration::from_millis(25)); }
                 let mut frames = vec![]; let mut closed = 0; let mut bad = false;
+                // "quiet" is decided by the server, not by the clock alone: after 150 ms without a frame
+                // two round trips on the control connection guarantee that the event loop has visited this
+                // connection with everything we sent already in its socket; only if nothing arrives after
+                // that is the collection over (a loaded machine then delays the barrier, not the verdict)
+                let mut wait_ms = 150;
                 loop {
-                    match cl.read(150) {
-                        Rd::Val(v) => frames.push(v),
-                        Rd::Timeout => break,
+                    match cl.read(wait_ms) {
+                        Rd::Val(v) => { frames.push(v); wait_ms = 150; }
+                        Rd::Timeout => { if wait_ms == 60 { break; } self.barrier(); wait_ms = 60; }
                         Rd::Closed => { closed = 1; break; }
                         Rd::Bad => { bad = true; break; }
                     }
                 }
+                self.conns.insert(c, cl);
                 let mut out = vec![i(closed)];
-                for f in frames { canon(f).enc(&mut out); }
+                for f in canon_pushes(frames) { canon(f).enc(&mut out); }
                 if bad { out.push(b("GARBAGE")); }
+                (newop, out)
+            }
+            b"BIG" => {
+                // [BIG c t key seed size count]: SET key <size-byte pattern>, then count GETs and a PING in ONE
+                // write; the client starts reading only after 60 ms and then reads everything: the replies
+                // exceed what the socket takes in one write, so the server's flush sees partial writes and a
+                // full socket.  Bulk replies are reported as (length, 32-bit checksum).
+                let c = tok_int(&op[1]);
+                let mut newop = op.to_vec(); newop[2] = Tok::I(self.logical);
+                let key = tok_bytes(&op[3]).to_vec();
+                let (seed, size, count) = (tok_int(&op[4]), tok_int(&op[5]), tok_int(&op[6]));
+                let val: Vec<u8> = (0..size).map(|k| ((k * 7 + k / 251 + seed).rem_euclid(256)) as u8).collect();
+                let cl = match self.conns.get_mut(&c) { Some(x) => x, None => return (newop, vec![b("CLOSED")]) };
+                let mut w = vec![]; V::cmd(&[b"SET", &key, &val]).wire(&mut w);
+                for _ in 0..count { V::cmd(&[b"GET", &key]).wire(&mut w); }
+                V::cmd(&[b"PING"]).wire(&mut w);
+                if !cl.send(&w) { return (newop, vec![b("CLOSED")]); }
+                std::thread::sleep(Duration::from_millis(60));
+                let mut out = vec![];
+                for _ in 0..(count + 2) {
+                    match cl.read(8000) {
+                        Rd::Val(V::Bulk(v)) => {
+                            let mut h: u64 = 5381;
+                            for x in &v { h = (h * 33 + (*x as u64)) & 0xFFFF_FFFF; }
+                            out.push(i(3)); out.push(i(v.len() as i128)); out.push(i(h as i128));
+                        }
+                        Rd::Val(v) => canon(v).enc(&mut out),
+                        Rd::Timeout => { out.push(b("TIMEOUT")); break; }
+                        Rd::Closed => { out.push(b("CLOSED")); break; }
+                        Rd::Bad => { out.push(b("GARBAGE")); break; }
+                    }
+                }
                 (newop, out)
             }
             _ => (op.to_vec(), vec![b("BADOP")]),
         }
     }
+    /// two request/reply round trips on the private control connection (authenticated when needed)
+    pub fn barrier(&mut self) {
+        if !self.conns.contains_key(&-1) { if let Some(cl) = Client::connect(self.srv.port) { self.conns.insert(-1, cl); } }
+        let pw = self.password.clone();
+        if let Some(cl) = self.conns.get_mut(&-1) {
+            let mut ask = |cl: &mut Client, args: &[&[u8]]| { let mut w = vec![]; V::cmd(args).wire(&mut w); cl.send(&w); let _ = cl.read(8000); };
+            if let Some(p) = &pw { if !self.ctl_authed { ask(cl, &[b"AUTH", p.as_bytes()]); self.ctl_authed = true; } }
+            ask(cl, &[b"PING"]); ask(cl, &[b"PING"]);
+        }
+    }
     pub fn finish(mut self) -> bool { let alive = self.srv.alive(); self.conns.clear(); self.srv.stop(false); alive }
 }
 
-/// run a whole case on a fresh server
+/// run a whole case on a fresh server; a case that hit a harness-side timeout (reply or sweeper wait
+/// not seen in time: machine overload, not a property of the server) is re-run once
 pub fn run_case(c: &Case, o: &SrvOpts) -> Case {
+    let r = run_case_once(c, o);
+    let infra = r.outs.iter().any(|out| out.len() == 1 && matches!(&out[0], Tok::B(w) if w == b"TIMEOUT" || w == b"SWEEPTIMEOUT" || w == b"BADREPLY"));
+    if infra { run_case_once(c, o) } else { r }
+}
+pub fn run_case_once(c: &Case, o: &SrvOpts) -> Case {
     // an initial [SERVER password] op configures the server of this case
     let mut opts = SrvOpts { password: o.password.clone(), aof: o.aof, dir: o.dir.clone(), keep_dir: o.keep_dir };
     let mut skip = 0;
@@ -308,6 +451,10 @@ pub fn raw_op(conn: i64, chunks: &[Vec<u8>]) -> Vec<Tok> { let mut o = vec![b("R
 pub fn sweep_op() -> Vec<Tok> { vec![b("SWEEP"), i(0)] }
 pub fn sweep_gate_op() -> Vec<Tok> { vec![b("SWEEP_GATE"), i(0)] }
 pub fn sweep_release_op() -> Vec<Tok> { vec![b("SWEEP_RELEASE"), i(0)] }
+pub fn subcmd_op(conn: i64, args: &[&[u8]]) -> Vec<Tok> { let mut o = vec![b("SUBCMD"), i(conn), i(0)]; V::cmd(args).enc(&mut o); o }
+pub fn subcmd_frame_op(conn: i64, req: &V) -> Vec<Tok> { let mut o = vec![b("SUBCMD"), i(conn), i(0)]; req.enc(&mut o); o }
+pub fn subraw_op(conn: i64, bytes: &[u8]) -> Vec<Tok> { vec![b("SUBRAW"), i(conn), i(0), bv(bytes)] }
+pub fn drain_op(conn: i64) -> Vec<Tok> { vec![b("DRAIN"), i(conn), i(0)] }
 pub fn close_op(conn: i64) -> Vec<Tok> { vec![b("CLOSE"), i(conn)] }
 pub fn server_op(password: &[u8]) -> Vec<Tok> { vec![b("SERVER"), bv(password)] }
 
